@@ -21,7 +21,7 @@ pub fn prop() -> Prop {
             "reference domain points are powers of GENERATOR^((p-1)/N) computed with reference arithmetic (constants themselves are C11's subject)",
         ],
         subs: vec![
-            Sub::gen("fft", fft_case, 96, 24_000, 600_000),
+            Sub::gen("fft", fft_case, 96, 24_000, 300_000),
             Sub::exhaustive("permute_index", permute_index_all),
         ],
         required: vec!["size_512", "size_1024", "ext_coefficients", "offset_not_generator", "fn:evaluate_poly", "fn:evaluate_poly_with_offset", "fn:interpolate_poly", "fn:interpolate_poly_with_offset", "fn:serial_fft", "fn:infer_degree", "fn:twiddles", "fn:fft_inputs_array", "zero_poly", "blowup_gt_1"],
